@@ -275,6 +275,97 @@ fn run_case(g: &mut Rng, name: &str, op: Op, unary: bool) -> bool {
     ok
 }
 
+
+// ---- value primitives (select / trunc / concat / assign / set_value) with at least one big-integer side ----------------
+fn obits(o: &Opd) -> Vec<u8> { match o { Opd::Lit(b) => vec![*b], Opd::Sized(v) => v.bits.clone() } }
+fn check_value(case: &str, r: &Value, expect: &[u8], signed: bool, big: bool) -> bool {
+    let (bits, is_big, junk) = from_value(r);
+    let ok = bits == expect && r.signed() == signed && is_big == big && !junk;
+    if !ok {
+        println!("FOUND {},\"expected\":\"{}'{}b{}\",\"expected_is_biguint\":{},\"actual\":\"{}'{}b{}\",\"actual_is_biguint\":{},\"actual_bits_beyond_width\":{}}}",
+                 case, expect.len(), if signed { "s" } else { "" }, fmt4(expect), big, bits.len(), if r.signed() { "s" } else { "" }, fmt4(&bits), is_big, junk);
+    }
+    ok
+}
+fn wide_opd(g: &mut Rng, fourstate: bool) -> Opd {
+    let w = 65 + match g.below(6) { 0 => 0, 1 => 63, 2 => 64, 3 => 135, _ => g.below(136) } as usize;
+    Opd::Sized(V4 { bits: gen_bits(g, w, fourstate), signed: g.below(2) == 0 })
+}
+fn run_prim(g: &mut Rng, which: u64) -> bool {
+    let fourstate = g.below(4) != 0;
+    match which {
+        0 => {
+            let v = wide_opd(g, fourstate);
+            let w = owidth(&v);
+            let (beg, end) = match g.below(8) {
+                0 => { let e = 1 + g.below(w as u64) as usize; (e - 1 - g.below(e as u64) as usize % e, e) }            // beg < end
+                1 => (w - 1, 0),
+                2 => { let e = g.below(w as u64) as usize; (e, e) }
+                3 => { let e = g.below(w as u64) as usize; (e + 63, e) }                                                  // exactly 64 bits
+                4 => { let e = g.below(w as u64) as usize; (e + 64, e) }                                                  // 65 bits, may run past the value
+                5 => { let e = g.below(w as u64 + 40) as usize; (e + g.below(100) as usize, e) }
+                _ => { let e = g.below(w as u64) as usize; (e + g.below((w - e) as u64) as usize, e) }
+            };
+            let case = format!("{{\"fn\":\"Value::select\",\"self\":\"{}\",\"beg\":{},\"end\":{}", opd_str(&v), beg, end);
+            vp_case(format!("{}}}", case));
+            let r = to_value(&v).select(beg, end);
+            let vb = obits(&v);
+            let expect: Vec<u8> = if beg < end { vec![] } else { (0..beg - end + 1).map(|k| if k + end < w { vb[k + end] } else { 0 }).collect() };
+            check_value(&case, &r, &expect, false, expect.len() > 64)
+        }
+        1 => {
+            let v = match g.below(4) { 0 => gen_opd(g, 200, 1, fourstate, true), _ => wide_opd(g, fourstate) };
+            let nw = match g.below(6) { 0 => 64, 1 => 65, 2 => 1 + g.below(64) as usize, 3 => owidth(&v).max(1), _ => 1 + g.below(200) as usize };
+            let case = format!("{{\"fn\":\"Value::trunc\",\"self\":\"{}\",\"width\":{}", opd_str(&v), nw);
+            vp_case(format!("{}}}", case));
+            let mut r = to_value(&v);
+            r.trunc(nw);
+            let vb = obits(&v);
+            let (expect, signed, big): (Vec<u8>, bool, bool) = match &v {
+                Opd::Lit(b) => (vec![*b; nw], false, nw > 64),
+                Opd::Sized(s) => if vb.len() <= nw { (vb.clone(), s.signed, vb.len() > 64) } else { (vb[..nw].to_vec(), s.signed, nw > 64) },
+            };
+            check_value(&case, &r, &expect, signed, big)
+        }
+        2 => {
+            let a = gen_opd(g, 150, 1, fourstate, false);
+            let b = if owidth(&a) <= 64 && g.below(4) != 0 { wide_opd(g, fourstate) } else { gen_opd(g, 150, 1, fourstate, false) };
+            let case = format!("{{\"fn\":\"Value::concat\",\"self\":\"{}\",\"x\":\"{}\"", opd_str(&a), opd_str(&b));
+            vp_case(format!("{}}}", case));
+            let r = to_value(&a).concat(&to_value(&b));
+            let mut expect = obits(&b); expect.extend(obits(&a));
+            let big = expect.len() > 64;
+            check_value(&case, &r, &expect, false, big)
+        }
+        3 => {
+            let v = wide_opd(g, fourstate);
+            let w = owidth(&v);
+            let val = gen_opd(g, 200, 1, fourstate, false);
+            let end = g.below(w as u64) as usize;
+            let beg = match g.below(4) { 0 => w - 1, 1 => end, _ => end + g.below((w - end) as u64) as usize };
+            let case = format!("{{\"fn\":\"Value::assign\",\"self\":\"{}\",\"value\":\"{}\",\"beg\":{},\"end\":{}", opd_str(&v), opd_str(&val), beg, end);
+            vp_case(format!("{}}}", case));
+            let mut r = to_value(&v);
+            r.assign(to_value(&val), beg, end);
+            let (vb, xb) = (obits(&v), obits(&val));
+            let expect: Vec<u8> = (0..w).map(|k| if k >= end && k <= beg { if k - end < xb.len() { xb[k - end] } else { 0 } } else { vb[k] }).collect();
+            check_value(&case, &r, &expect, osigned(&v), true)
+        }
+        _ => {
+            let v = match g.below(4) { 0 => gen_opd(g, 64, 1, fourstate, false), _ => wide_opd(g, fourstate) };
+            let w = owidth(&v);
+            let val = match g.below(3) { 0 => wide_opd(g, fourstate), _ => gen_opd(g, 200, 1, fourstate, true) };
+            let case = format!("{{\"fn\":\"Value::set_value\",\"self\":\"{}\",\"value\":\"{}\"", opd_str(&v), opd_str(&val));
+            vp_case(format!("{}}}", case));
+            let mut r = to_value(&v);
+            r.set_value(to_value(&val));
+            let xb = obits(&val);
+            let expect: Vec<u8> = match &val { Opd::Lit(b) => vec![*b; w], _ => (0..w).map(|k| if k < xb.len() { xb[k] } else { 0 }).collect() };
+            check_value(&case, &r, &expect, osigned(&v), w > 64)
+        }
+    }
+}
+
 fn main() {
     let mut g = Rng(vp_seed());
     vp_hook();
@@ -282,6 +373,18 @@ fn main() {
     let n: u64 = std::env::args().nth(3).and_then(|s| s.parse().ok()).unwrap_or(3000);
     let mut cases = 0u64;
     let known = BINARY.iter().chain(UNARY.iter()).any(|(nm, _)| *nm == sel);
+    // value primitives: run for a failed primitive (any non-arm function name) and in the full run
+    let prims = !known;
+    if prims {
+        for i in 0..(if sel == "all" { 4 * n } else { 12 * n }) {
+            cases += 1;
+            if !run_prim(&mut g, i % 5) { std::process::exit(1); }
+        }
+    }
+    let arms_too = known || sel == "all" || !(sel.starts_with("Value::") || sel.starts_with("ValueBigUint::"))
+        || matches!(sel.as_str(), "Value::expand" | "Value::to_shift_amount" | "ValueBigUint::to_bigint" | "ValueBigUint::new_bigint" | "ValueBigUint::gen_mask" | "ValueBigUint::new_x" | "ValueBigUint::new_biguint");
+    if !arms_too { println!("NONE {}", cases); return; }
+    let mut cases_arms = 0u64;
     for _ in 0..n {
         for (nm, op) in BINARY.iter() {
             if known && *nm != sel { continue; }
@@ -293,7 +396,8 @@ fn main() {
             cases += 1;
             if !run_case(&mut g, nm, *op, true) { std::process::exit(1); }
         }
-        if !known && cases > 40 * n / 3 { break; }
+        cases_arms = cases;
+        if !known && cases_arms > 40 * n / 3 + 4 * n { break; }
     }
     println!("NONE {}", cases);
 }
